@@ -15,6 +15,8 @@ package consensus
 
 import (
 	"fmt"
+	"os"
+	"strings"
 	"testing"
 	"time"
 
@@ -29,19 +31,6 @@ import (
 	"github.com/tendermint/tendermint/types"
 )
 
-const (
-	c13Valid        = iota // the validator's for-block signature
-	c13Absent              // absent
-	c13ValidNil            // the validator's genuine nil precommit
-	c13Garbage             // flag commit, 64 bytes of garbage
-	c13NilGarbage          // flag nil, garbage signature
-	c13WrongAddr           // genuine for-block signature, ValidatorAddress of the next validator
-	c13ReflagNil           // genuine for-block signature re-flagged nil
-	c13NKinds
-)
-
-var c13KindNames = []string{"for-block", "absent", "nil", "garbage-commit", "garbage-nil", "wrong-address", "for-block-sig-flagged-nil"}
-
 type c13HCase struct {
 	Height int64 `json:"height"`
 	Kinds  []int `json:"kinds"`
@@ -51,41 +40,7 @@ type c13HEnv struct {
 	chain *c13kit.Chain
 	node  *c13kit.Node
 	conf  *cfg.ConsensusConfig
-	nil_  map[string]types.CommitSig
-}
-
-func (e *c13HEnv) commit(c c13HCase) *types.Commit {
-	vals := e.chain.ValsAt(c.Height)
-	base := e.chain.Commits[c.Height]
-	garbage := make([]byte, 64)
-	for i := range garbage {
-		garbage[i] = byte(i*5 + 1)
-	}
-	sigs := make([]types.CommitSig, len(base.Signatures))
-	copy(sigs, base.Signatures)
-	for i, k := range c.Kinds {
-		switch k {
-		case c13Valid:
-		case c13Absent:
-			sigs[i] = types.NewCommitSigAbsent()
-		case c13ValidNil:
-			key := fmt.Sprintf("%d/%d", c.Height, i)
-			if _, ok := e.nil_[key]; !ok {
-				e.nil_[key] = e.chain.SignSlot(vals, i, c.Height, base.BlockID, true)
-			}
-			sigs[i] = e.nil_[key]
-		case c13Garbage:
-			sigs[i].Signature = garbage
-		case c13NilGarbage:
-			sigs[i].BlockIDFlag = types.BlockIDFlagNil
-			sigs[i].Signature = garbage
-		case c13WrongAddr:
-			sigs[i].ValidatorAddress = vals.Validators[(i+1)%vals.Size()].Address
-		case c13ReflagNil:
-			sigs[i].BlockIDFlag = types.BlockIDFlagNil
-		}
-	}
-	return types.NewCommit(c.Height, 0, base.BlockID, sigs)
+	premise string // "" when all three reactors were found to decide with VerifyCommitLight
 }
 
 func c13Safely(f func()) (p string) {
@@ -102,7 +57,7 @@ func c13Safely(f func()) (p string) {
 func (e *c13HEnv) run(c c13HCase) (key, what, outcome string) {
 	h := c.Height
 	vals := e.chain.ValsAt(h)
-	commit := e.commit(c)
+	commit := e.chain.SlotCommit(h, c.Kinds)
 	if err := commit.ValidateBasic(); err != nil {
 		return "", "", "not-wire-expressible"
 	}
@@ -161,25 +116,25 @@ func (e *c13HEnv) run(c c13HCase) (key, what, outcome string) {
 		}
 		return "consensus/state.go:reconstructLastCommit:panics-on-seen-commit-accepted-by-block-sync:" + e.chain.BadSlotCause(h, commit),
 			fmt.Sprintf("height %d, slots %v: VerifyCommitLight accepts (valid for-block power %d of %d), the commit is stored as seen commit, and %s panics: %.240s",
-				h, c13Names(c.Kinds), truth.ForBlock, truth.Total, where, pSwitch+pRestart), "violation"
+				h, c13kit.SlotNames(c.Kinds), truth.ForBlock, truth.Total, where, pSwitch+pRestart), "violation"
 	}
 	for _, x := range []*State{cs, cs2} {
 		lc := x.LastCommit
 		if lc == nil || !lc.HasTwoThirdsMajority() {
-			return "consensus/state.go:reconstructLastCommit:last-commit-without-two-thirds", fmt.Sprint(c13Names(c.Kinds)), "violation"
+			return "consensus/state.go:reconstructLastCommit:last-commit-without-two-thirds", fmt.Sprint(c13kit.SlotNames(c.Kinds)), "violation"
 		}
 		for i := 0; i < vals.Size(); i++ {
 			if v := lc.GetByIndex(int32(i)); v != nil {
 				if err := v.Verify(c13kit.ChainID, vals.Validators[i].PubKey); err != nil {
 					return "consensus/state.go:reconstructLastCommit:last-commit-holds-invalid-signature",
-						fmt.Sprintf("slots %v: vote %d of the rebuilt LastCommit: %v", c13Names(c.Kinds), i, err), "violation"
+						fmt.Sprintf("slots %v: vote %d of the rebuilt LastCommit: %v", c13kit.SlotNames(c.Kinds), i, err), "violation"
 				}
 			}
 		}
 	}
 	if firstBad >= 0 {
 		// cannot happen while CommitToVoteSet verifies every vote; kept as a guard on the reference itself
-		return "consensus/state.go:reconstructLastCommit:invalid-slot-survives", fmt.Sprint(c13Names(c.Kinds)), "violation"
+		return "consensus/state.go:reconstructLastCommit:invalid-slot-survives", fmt.Sprint(c13kit.SlotNames(c.Kinds)), "violation"
 	}
 	return "", "", "accepted/handover-ok"
 }
@@ -191,12 +146,25 @@ func c13Min(a, b int) int {
 	return b
 }
 
-func c13Names(ks []int) []string {
-	out := make([]string, len(ks))
-	for i, k := range ks {
-		out[i] = c13KindNames[k]
+// c13Premise checks, in the source tree this binary was built from, that the three block-sync reactors decide
+// with Validators.VerifyCommitLight and nothing else. This part offers commits to that function directly; if a
+// reactor has been changed to ask more, "accepted by block sync" is no longer what this part computes and its
+// alarms are reported as diagnostics only (parts commits/v0/v1/v2 run the reactors themselves and stay exact).
+func c13Premise() string {
+	for _, f := range [][2]string{
+		{"../blockchain/v0/reactor.go", "err := state.Validators.VerifyCommitLight("},
+		{"../blockchain/v1/reactor.go", "err = bcR.state.Validators.VerifyCommitLight("},
+		{"../blockchain/v2/processor_context.go", "return pc.state.Validators.VerifyCommitLight("},
+	} {
+		bz, err := os.ReadFile(f[0])
+		if err != nil {
+			return "cannot read " + f[0]
+		}
+		if !strings.Contains(string(bz), f[1]) {
+			return f[0] + " no longer contains `" + f[1] + "`"
+		}
 	}
-	return out
+	return ""
 }
 
 func TestVerifC13Handover(t *testing.T) {
@@ -209,7 +177,10 @@ func TestVerifC13Handover(t *testing.T) {
 	chain := c13kit.NewChain()
 	node := chain.NewNode()
 	defer node.Close()
-	e := &c13HEnv{chain: chain, node: node, conf: cfg.TestConsensusConfig(), nil_: map[string]types.CommitSig{}}
+	e := &c13HEnv{chain: chain, node: node, conf: cfg.TestConsensusConfig(), premise: c13Premise()}
+	if e.premise != "" {
+		r.Cap("handover: premise not established (" + e.premise + "): alarms about commits 'accepted by block sync' are diagnostics in this part")
+	}
 	var rc c13HCase
 	if rep, skip := r.ReplayCase(&rc); skip {
 		return
@@ -237,7 +208,7 @@ func TestVerifC13Handover(t *testing.T) {
 				r.Eval()
 				triv := true
 				for _, x := range idx {
-					if x != c13Valid {
+					if x != c13kit.SlotValid {
 						triv = false
 					}
 				}
@@ -245,6 +216,10 @@ func TestVerifC13Handover(t *testing.T) {
 					r.NTCount(1)
 				}
 				key, what, out := e.run(c)
+				if key != "" && e.premise != "" && strings.Contains(key, "accepted-by-block-sync") {
+					r.Add("diag_sink_would_panic_but_premise_not_established", 1)
+					key, out = "", "sink-panics/premise-not-established"
+				}
 				if key != "" {
 					if !confirmed[key] {
 						if !vr.Confirm(3, fmt.Errorf("%s", key), func() error {
@@ -263,13 +238,13 @@ func TestVerifC13Handover(t *testing.T) {
 				}
 				r.Outcome(out)
 				if k%3001 == 7 {
-					r.Sample(map[string]interface{}{"height": h, "slots": c13Names(c.Kinds), "outcome": out})
+					r.Sample(map[string]interface{}{"height": h, "slots": c13kit.SlotNames(c.Kinds), "outcome": out})
 				}
 			}
 			i := 0
 			for ; i < n; i++ {
 				idx[i]++
-				if idx[i] < c13NKinds {
+				if idx[i] < c13kit.NSlotKinds {
 					break
 				}
 				idx[i] = 0
